@@ -349,9 +349,12 @@ func (node *TopNode) resolveMerge(binding *syntax.MergeExp, t syntax.Type,
 		}
 		innerT = t.Elem
 	default:
+		// Reachable from accepted programs: the merged output of a mapped
+		// call inside a mapped sub-pipeline bound to an untyped map (`map m =
+		// split INNER.r`).  The consuming stage fails; mrp must not crash.
 		tid := t.TypeId()
-		panic("invalid type for " + binding.GoString() +
-			" for " + binding.Call.GetFqid() + ": " + tid.String())
+		return true, nil, fmt.Errorf("invalid type for %s for %s: %s",
+			binding.GoString(), binding.Call.GetFqid(), tid.String())
 	}
 	for _, part := range fork {
 		if part.Split.Call == binding.GetCall() {
